@@ -708,6 +708,7 @@ package bpmn
 //@     invariant tokFrame(f) && iterFrame(f) && noVisitYet(f) && f.retry == athead(1, f.retry) && len(unconditional) == len(sequences)
 //@   loop 6 range rest
 //@     invariant tokFrame(f) && iterFrame(f) && f.retry == athead(1, f.retry) && len(unconditional) == len(sequences) && len(rest) == len(sequences) - 1
+//@     invariant [no-forked-token-is-started-before-the-flow-trace-that-announces-it] count(Spawn, code("(*flow).Start$1")) == athead(1, count(Spawn, code("(*flow).Start$1")))
 //@     invariant count(Trace, VisitTrace) == athead(1, count(Trace, VisitTrace)) + (flowed ? 1 : 0)
 //@     invariant forall b int :: off(flowHandlers) <= b && b < off(flowHandlers) + len(flowHandlers) ==> at(flowHandlers, b) != nil &&
 //@               fncode(at(flowHandlers, b)) == code("(*flow).handleAdditionalSequenceFlow$1")
